@@ -3,6 +3,7 @@ import DesperProofs.Lemmas.LoaderRegex
 import DesperProofs.Lemmas.LoaderWorld
 import DesperProofs.Lemmas.LoaderLoad
 import DesperProofs.Lemmas.LoaderExamples
+import DesperProofs.Lemmas.LoaderReact
 open Desper Desper.Loader
 
 /-!
@@ -224,3 +225,43 @@ example : loadFile { exU with getItem := fun _ => .error "KeyError" } exDesc = .
     loadFile { exU with ctorRaises := fun l => l = 1 } exDesc = .error "CtorError" ∧
     transformDesc exU exDesc = .ok exTd ∧ WellFormed exU [clsOnUpdate, clsCoroutine] exTd :=
   ⟨rfl, rfl, rfl, by decide⟩
+
+/-- The re-entrant model of the release (`setEnabledR`: callbacks with scripted reactions that may
+suspend / resume dispatching, create entities, add and remove components, dispatch events; listener
+sets visited in the order the implementation reports, validated step by step) agrees with the
+passive one of `C15_disabled_then_events` whenever no callback of the program reacts: given as
+hints the receivers of `owedLog` in order, it accepts every hint, uses all of them up, raises
+nothing and ends in the very world `setEnabled` ends in — whose log is `owedLog`.  For every fuel
+above the size of the queue plus the number of handlers. -/
+theorem C15_reentrant_release_passive (U : Universe) (d td : Desc) (hp : Passive U)
+    (htd : transformDesc U d = .ok td) (hwf : WellFormed U [clsOnUpdate, clsCoroutine] td)
+    (hlab : ((td.processors ++ td.entities.flatMap (·.2)).map (·.label)).Nodup) (n : Nat) :
+    ∃ w, loadFile U d = .ok w ∧
+      (setEnabledR U (n + w.queue.length + w.handlers.length + 6)
+        { w := w, hints := (owedLog U td).map (·.recv) }).w = setEnabled U w true ∧
+      (setEnabled U w true).log = owedLog U td ∧
+      (setEnabledR U (n + w.queue.length + w.handlers.length + 6)
+        { w := w, hints := (owedLog U td).map (·.recv) }).bad = none ∧
+      (setEnabledR U (n + w.queue.length + w.handlers.length + 6)
+        { w := w, hints := (owedLog U td).map (·.recv) }).hints = [] := by
+  obtain ⟨hf, hg, hn⟩ := loadedFile_facts U td hlab
+  have hrel := release_loaded U (defaultProcessors U { enabled := false }) td
+    (by rw [defaultProcessors_disabled]) (by rw [defaultProcessors_disabled])
+    (by rw [defaultProcessors_disabled]) (by rw [defaultProcessors_disabled])
+    (by rw [defaultProcessors_disabled]) (by rw [defaultProcessors_disabled])
+  have hlog : (setEnabled U (loadedFile U td) true).log = owedLog U td := hrel.2.2.2.2.2.1
+  have hlog0 : (loadedFile U td).log = [] := hrel.2.1
+  have hq : (loadedFile U td).queue.flatMap (entriesOf U (loadedFile U td).handlers) = owedLog U td := by
+    have := hlog
+    simp only [setEnabled, ite_true] at this
+    rw [release_good U (loadedFile U td).queue { loadedFile U td with enabled := true } hg hf] at this
+    simpa [hlog0] using this
+  have hmain := setEnabledR_passive hp (loadedFile U td) n hf hg hn
+  simp only [hq] at hmain
+  exact ⟨loadedFile U td, loadFile_wf U d td htd hwf, hmain.1, hlog, hmain.2.1, hmain.2.2⟩
+
+/-- non-vacuity: the hypotheses hold of the example universe and description -/
+example : Passive exU ∧ transformDesc exU exDesc = .ok exTd ∧
+    WellFormed exU [clsOnUpdate, clsCoroutine] exTd ∧
+    ((exTd.processors ++ exTd.entities.flatMap (·.2)).map (·.label)).Nodup :=
+  ⟨fun _ _ _ => rfl, rfl, by decide, by decide⟩
